@@ -29,6 +29,8 @@ UNITS = [
          bounded='rank <= 3, extents 1..6 (bit-precise cross-check of the C spec functions against the Lean definitions)', tier='thorough',
          clause='flat -> multi-index -> flat is the identity (bounded cross-check of L1)'),
 ]
+UNITS += import_units('C20', names=['ndc.product', 'ndc.compute_strides', 'ndc.reverse', 'ndc.mk', 'ndc.default', 'ndc.resize'],
+                      clause='column-major layout: the offset functor holds the reversed shape and the products of the leading extents (same logical element in both layouts, with lemma L2)')
 LEMMAS = [
     Lemma('L1+L2 mixed radix (MixedRadix.lean)', 'MixedRadix.lean', clause='round trips both ways are the identity; produced indices lie inside the shape; enumeration visits every multi-index exactly once in row-major order (offset strictly monotone w.r.t. lexicographic order); column-major offset = row-major offset of the reversed index/shape'),
 ]
